@@ -33,18 +33,28 @@ META = {
 }
 
 
+# loss-heavy vectors (loss dearer than a transfer): ties between a deep placement and a transfer
+LOSS_HEAVY = [
+    {"spe": 0, "dup": 1, "hgt": 1, "floss": 2, "sloss": 1}, {"spe": 0, "dup": 3, "hgt": 1, "floss": 2, "sloss": 1},
+    {"spe": 0, "dup": 1, "hgt": 1, "floss": 1, "sloss": 1}, {"spe": 0, "dup": 2, "hgt": 2, "floss": 3, "sloss": 1},
+    {"spe": 1, "dup": 1, "hgt": 2, "floss": 2, "sloss": 1}, {"spe": 0, "dup": 1, "hgt": 3, "floss": 4, "sloss": 1},
+]
+
+
 def plan(tier, seed):
     if tier == "quick":
         specs = [{"kind": "plain_exh", "i": i, "n": 6, "max_obj": 3, "max_sp": 3, "ncost": 14} for i in range(6)]
         specs += [{"kind": "plain_rand", "i": i, "count": 60, "max_obj": 6, "max_sp": 5} for i in range(4)]
         specs += [{"kind": "super_rand", "i": i, "count": 60, "max_obj": 5, "max_sp": 3, "max_fam": 4} for i in range(6)]
         specs += [{"kind": "deep", "i": i, "count": 140} for i in range(10)]
+        specs += [{"kind": "plain_exh44", "i": i, "n": 16, "costs": LOSS_HEAVY[:2]} for i in range(16)]
         return specs
     specs = [{"kind": "plain_exh", "i": i, "n": 16, "max_obj": 4, "max_sp": 3, "ncost": 20} for i in range(16)]
     specs += [{"kind": "plain_rand", "i": i, "count": 500, "max_obj": 7, "max_sp": 6} for i in range(8)]
     specs += [{"kind": "super_exh", "i": i, "n": 16, "max_obj": 3, "max_sp": 2, "nfam": 2, "ncost": 6} for i in range(16)]
     specs += [{"kind": "super_rand", "i": i, "count": 400, "max_obj": 5, "max_sp": 4, "max_fam": 4} for i in range(24)]
     specs += [{"kind": "deep", "i": i, "count": 1200} for i in range(32)]
+    specs += [{"kind": "plain_exh44", "i": i, "n": 32, "costs": LOSS_HEAVY} for i in range(32)]
     return specs
 
 
@@ -160,6 +170,10 @@ def canaries(ctx):
         raise Inconclusive("C05 canary accepted by the oracle")
 
 
+def RT_leaves(nested):
+    return [nested] if isinstance(nested, str) else [x for c in nested for x in RT_leaves(c)]
+
+
 def tie_costs(n, seed, plain):
     import random
 
@@ -197,11 +211,24 @@ def run(ctx, spec):
                     ctx.sample(case)
                 if ctx.too_many():
                     return
+    elif kind == "plain_exh44":
+        idx = 0
+        for Gn, Sn, lm in gen.exhaustive_inputs(4, 4, mirrored=True):
+            if len(lm) < 4 or isinstance(Sn, str) or len(RT_leaves(Sn)) < 4:
+                continue
+            for c in spec["costs"]:
+                idx += 1
+                if idx % spec["n"] != spec["i"]:
+                    continue
+                check_case(ctx, {"kind": "c05", "algos": ["thl"], "G": Gn, "S": Sn, "leafmap": lm, "costs": c})
+                ctx.count("exh44_cases")
+                if ctx.too_many():
+                    return
     elif kind == "plain_rand":
         rng = ctx.rng("plain")
         for _ in range(spec["count"]):
             Gn, Sn, lm = gen.random_input(rng, spec["max_obj"], spec["max_sp"], min_obj=3)
-            case = {"kind": "c05", "algos": ["thl", "exh"] if len(lm) <= 5 else ["thl"], "G": Gn, "S": Sn, "leafmap": lm, "costs": gen.tie_cost(rng, True)}
+            case = {"kind": "c05", "algos": ["thl", "exh"] if len(lm) <= 5 else ["thl"], "G": Gn, "S": Sn, "leafmap": lm, "costs": gen.tame(gen.tie_cost(rng, True), len(lm))}
             check_case(ctx, case)
             if ctx.too_many():
                 return
